@@ -1,9 +1,25 @@
 (* C13 -- invariance under re-segmentation, operator order and change of the time unit.
-   This file contains only statements closed by [exact <lemma>] and their assumptions. *)
-From Coq Require Import ZArith Reals List.
+   This file contains only statements closed by [exact <lemma>] and their assumptions.
+
+   Vocabulary (Proofs/CMBase.v, Proofs/CMIntegral.v, Proofs/Invariance.v):
+     sdiv lam v / smul lam v     every element of v divided / multiplied by lam
+     a3scal n1 n2 n3 z A         the n1 x n2 x n3 array A multiplied by the real z
+     all_masked d thr w ev dt    no entry of the segment integral is on the Taylor branch
+     taylor_eps thr              thr/2 + thr^2/2
+     step_weight d V Q N C       sum_mn |(V^dagger N V)_mn| |(W^dagger C W)_nm|, W = Q^dagger V
+     cm_pulse d thr P om bs ns   the package's loop (cm_scratch_loop) on a pulse given as a list P of segments
+                                 (eigenvalues, eigenvectors, duration, sensitivities of all noise operators), with the
+                                 propagators and the time grid derived from P; equal to
+                                 control_matrix_from_scratch as called by the package (C13_cm_pulse_is_model)
+     prop_before d P1            the propagator at the end of the segments P1                                   *)
+From Coq Require Import ZArith Reals List Permutation.
 From Coquelicot Require Import Coquelicot.
-From FF Require Import Base.Ops Inst.RInst Base.RAlg Model.Numeric Model.Consts Model.Tie.C13 Proofs.Foi Proofs.Invariance.
+From FF Require Import Base.Ops Inst.RInst Base.RAlg Model.Numeric Model.Hamiltonian Model.Consts Model.Tie.C13
+  Proofs.Foi Proofs.CMBase Proofs.CMIntegral Proofs.Invariance.
+Import ListNotations.
 Local Open Scope R_scope.
+
+(* ============================== change of the time unit ============================== *)
 
 (* Time unit x lam (durations x lam, frequencies and energies / lam): the segment integral is multiplied
    by lam exactly, on both branches of the small-denominator test. *)
@@ -20,7 +36,171 @@ Theorem C13_time_scaling_refuted_absolute_mask :
 Proof. exact time_scaling_refuted_absolute_mask. Qed.
 Print Assumptions C13_time_scaling_refuted_absolute_mask.
 
-(* A zero-duration segment: every entry of the segment integral is exactly zero. *)
+(* One step of the control matrix. *)
+Theorem C13_time_scaling_cm_step : forall d lam, 0 < lam -> forall thr ev V Q tg dt om bs ns nc,
+  cm_step RO d thr (sdiv lam ev) V Q (lam * tg) (lam * dt) (sdiv lam om) bs ns nc =
+  a3scal (length ns) (length bs) (length om) lam (cm_step RO d thr ev V Q tg dt om bs ns nc).
+Proof. exact time_scaling_cm_step. Qed.
+Print Assumptions C13_time_scaling_cm_step.
+
+(* The propagators do not change, the time grid is multiplied by lam. *)
+Theorem C13_time_scaling_propagators : forall d lam, 0 < lam -> forall evs Vs dts,
+  propagators RO d (map (sdiv lam) evs) Vs (smul lam dts) = propagators RO d evs Vs dts.
+Proof. exact time_scaling_propagators. Qed.
+Theorem C13_time_scaling_times : forall lam dts, times RO (smul lam dts) = smul lam (times RO dts).
+Proof. exact time_scaling_times. Qed.
+
+(* The control matrix of the rescaled pulse, computed as the package computes it, is lam x the control matrix:
+   exactly, for every lam > 0, every pulse, every frequency (resonant or not). *)
+Theorem C13_time_scaling_cm : forall d lam, 0 < lam -> forall thr evs Vs om bs ns nc dts,
+  control_matrix_from_scratch RO d thr (map (sdiv lam) evs) Vs (propagators RO d (map (sdiv lam) evs) Vs (smul lam dts))
+     (sdiv lam om) bs ns nc (smul lam dts) (times RO (smul lam dts)) =
+  a3scal (length ns) (length bs) (length om) lam
+    (control_matrix_from_scratch RO d thr evs Vs (propagators RO d evs Vs dts) om bs ns nc dts (times RO dts)).
+Proof. exact time_scaling_cm. Qed.
+Print Assumptions C13_time_scaling_cm.
+
+(* Filter functions scale by lam^2. *)
+Theorem C13_time_scaling_ff : forall lam na nk no Bm,
+  filter_function RO na nk no (a3scal na nk no lam Bm) = a3scal na na no (lam * lam) (filter_function RO na nk no Bm).
+Proof. exact time_scaling_ff. Qed.
+Print Assumptions C13_time_scaling_ff.
+
+(* ============================== zero-duration segments ============================== *)
+
 Theorem C13_foi_zero_duration : forall thr w evm evn, foi_entry RO thr w evm evn 0 = (0, 0).
 Proof. exact foi_entry_zero_duration. Qed.
 Print Assumptions C13_foi_zero_duration.
+
+(* A zero-duration segment contributes the zero array, whatever its eigen-data (amplitudes) and sensitivities. *)
+Theorem C13_zero_duration_cm_step : forall d thr ev V Q tg om bs ns nc,
+  cm_step RO d thr ev V Q tg 0 om bs ns nc = a3zero RO (length ns) (length bs) (length om).
+Proof. exact zero_duration_cm_step. Qed.
+Print Assumptions C13_zero_duration_cm_step.
+
+(* Its propagator is the identity (V V^dagger = 1). *)
+Theorem C13_zero_duration_propagator : forall d ev V,
+  feq d (fmul d (toF V) (fadj (toF V))) fid -> feq d (toF (segment_propagator RO d ev V 0)) fid.
+Proof. exact segment_propagator_zero. Qed.
+
+(* Inserting a zero-duration segment anywhere leaves the whole control matrix unchanged (later segments unaffected). *)
+Theorem C13_zero_duration_insert_cm : forall d thr P1 P2 ev V ncg om bs ns,
+  feq d (fmul d (toF V) (fadj (toF V))) fid ->
+  cm_pulse d thr (P1 ++ (ev, V, 0, ncg) :: P2) om bs ns = cm_pulse d thr (P1 ++ P2) om bs ns.
+Proof. exact zero_duration_insert_cm. Qed.
+Print Assumptions C13_zero_duration_insert_cm.
+
+(* ============================== splitting / merging ============================== *)
+
+(* P(b) P(a) = P(a+b) for the propagator of a segment (V^dagger V = 1): propagators at the common edges agree. *)
+Theorem C13_split_propagator : forall d ev V a b, feq d (fmul d (fadj (toF V)) (toF V)) fid ->
+  feq d (fmul d (toF (segment_propagator RO d ev V b)) (toF (segment_propagator RO d ev V a)))
+        (toF (segment_propagator RO d ev V (a + b))).
+Proof. exact segment_propagator_add. Qed.
+
+(* One step: cm_step over a+b = cm_step over a + cm_step over b started at tg+a with Q2 = P(a) Q; exact when no
+   entry is on the Taylor branch on either side ... *)
+Theorem C13_split_segment : forall d thr ev V Q tg a b om bs ns nc j k o,
+  0 <= thr -> (j < length ns)%nat -> (k < length bs)%nat -> (o < length om)%nat ->
+  feq d (fmul d (fadj (toF V)) (toF V)) fid ->
+  all_masked d thr (vg RO om o) ev (a + b) -> all_masked d thr (vg RO om o) ev a -> all_masked d thr (vg RO om o) ev b ->
+  a3get RO (cm_step RO d thr ev V Q tg (a + b) om bs ns nc) j k o =
+  cadd RO (a3get RO (cm_step RO d thr ev V Q tg a om bs ns nc) j k o)
+          (a3get RO (cm_step RO d thr ev V (mmul RO d (segment_propagator RO d ev V a) Q) (tg + a) b om bs ns nc) j k o).
+Proof. exact split_cm_step_exact. Qed.
+Print Assumptions C13_split_segment.
+
+(* ... and within the Taylor bound for every frequency. *)
+Theorem C13_split_segment_bound : forall d thr ev V Q tg a b om bs ns nc j k o,
+  0 <= thr -> (j < length ns)%nat -> (k < length bs)%nat -> (o < length om)%nat ->
+  feq d (fmul d (fadj (toF V)) (toF V)) fid ->
+  Cmod (csub RO (a3get RO (cm_step RO d thr ev V Q tg (a + b) om bs ns nc) j k o)
+               (cadd RO (a3get RO (cm_step RO d thr ev V Q tg a om bs ns nc) j k o)
+                        (a3get RO (cm_step RO d thr ev V (mmul RO d (segment_propagator RO d ev V a) Q) (tg + a) b om bs ns nc) j k o)))
+  <= Rabs (vg RO nc j) * taylor_eps thr * (Rabs (a + b) + Rabs a + Rabs b) * step_weight d V Q (nthm ns j) (nthm bs k).
+Proof. exact split_cm_step_bound. Qed.
+Print Assumptions C13_split_segment_bound.
+
+(* Whole pulse: segment (ev, V, a+b, s) replaced by (ev, V, a, s), (ev, V, b, s) -- or, read from right to left, two
+   equal neighbours merged.  Segments before and after are arbitrary. *)
+Theorem C13_split_segment_cm : forall d thr P1 P2 ev V a b ncg om bs ns j k o,
+  0 <= thr -> (j < length ns)%nat -> (k < length bs)%nat -> (o < length om)%nat ->
+  feq d (fmul d (fadj (toF V)) (toF V)) fid ->
+  all_masked d thr (vg RO om o) ev (a + b) -> all_masked d thr (vg RO om o) ev a -> all_masked d thr (vg RO om o) ev b ->
+  a3get RO (cm_pulse d thr (P1 ++ (ev, V, a + b, ncg) :: P2) om bs ns) j k o =
+  a3get RO (cm_pulse d thr (P1 ++ (ev, V, a, ncg) :: (ev, V, b, ncg) :: P2) om bs ns) j k o.
+Proof. exact split_segment_cm_exact. Qed.
+Print Assumptions C13_split_segment_cm.
+
+Theorem C13_split_segment_cm_bound : forall d thr P1 P2 ev V a b ncg om bs ns j k o,
+  0 <= thr -> (j < length ns)%nat -> (k < length bs)%nat -> (o < length om)%nat ->
+  feq d (fmul d (fadj (toF V)) (toF V)) fid ->
+  Cmod (csub RO (a3get RO (cm_pulse d thr (P1 ++ (ev, V, a + b, ncg) :: P2) om bs ns) j k o)
+               (a3get RO (cm_pulse d thr (P1 ++ (ev, V, a, ncg) :: (ev, V, b, ncg) :: P2) om bs ns) j k o))
+  <= Rabs (vg RO ncg j) * taylor_eps thr * (Rabs (a + b) + Rabs a + Rabs b)
+     * step_weight d V (prop_before d P1) (nthm ns j) (nthm bs k).
+Proof. exact split_segment_cm_bound. Qed.
+Print Assumptions C13_split_segment_cm_bound.
+
+(* cm_pulse is the package's function called the package's way. *)
+Theorem C13_cm_pulse_is_model : forall d thr evs Vs dts om bs ns nc,
+  length evs = length dts -> length Vs = length dts ->
+  control_matrix_from_scratch RO d thr evs Vs (propagators RO d evs Vs dts) om bs ns nc dts (times RO dts) =
+  cm_pulse d thr (zipf evs Vs dts (transpose_coeffs RO (length dts) nc)) om bs ns.
+Proof. exact cm_pulse_is_model. Qed.
+Print Assumptions C13_cm_pulse_is_model.
+
+(* ============================== linearity ============================== *)
+
+(* Noise operator j = al N_j1 + be N_j2 with the same sensitivities: row j = al row j1 + be row j2. *)
+Theorem C13_cm_linear_operators : forall d thr P om bs ns j j1 j2 k o (al be : C (T:=R)),
+  (j < length ns)%nat -> (j1 < length ns)%nat -> (j2 < length ns)%nat -> (k < length bs)%nat -> (o < length om)%nat ->
+  nthm ns j = madd RO d (mscal RO d al (nthm ns j1)) (mscal RO d be (nthm ns j2)) ->
+  (forall p, In p P -> vg RO (fs_nc p) j1 = vg RO (fs_nc p) j /\ vg RO (fs_nc p) j2 = vg RO (fs_nc p) j) ->
+  a3get RO (cm_pulse d thr P om bs ns) j k o =
+  cadd RO (cmul RO al (a3get RO (cm_pulse d thr P om bs ns) j1 k o)) (cmul RO be (a3get RO (cm_pulse d thr P om bs ns) j2 k o)).
+Proof. exact cm_linear_operators. Qed.
+Print Assumptions C13_cm_linear_operators.
+
+(* Sensitivities s_j = a s_j1 + b s_j2 on every segment, same operator: row j = a row j1 + b row j2. *)
+Theorem C13_cm_linear_sensitivities : forall d thr P om bs ns j j1 j2 k o (a b : R),
+  (j < length ns)%nat -> (j1 < length ns)%nat -> (j2 < length ns)%nat -> (k < length bs)%nat -> (o < length om)%nat ->
+  nthm ns j1 = nthm ns j -> nthm ns j2 = nthm ns j ->
+  (forall p, In p P -> vg RO (fs_nc p) j = a * vg RO (fs_nc p) j1 + b * vg RO (fs_nc p) j2) ->
+  a3get RO (cm_pulse d thr P om bs ns) j k o =
+  cadd RO (cscal RO a (a3get RO (cm_pulse d thr P om bs ns) j1 k o)) (cscal RO b (a3get RO (cm_pulse d thr P om bs ns) j2 k o)).
+Proof. exact cm_linear_sensitivities. Qed.
+Print Assumptions C13_cm_linear_sensitivities.
+
+(* ============================== operator order ============================== *)
+
+(* Any permutation of the listed (noise operator, sensitivities) pairs permutes the rows of the control matrix. *)
+Theorem C13_cm_perm_rows : forall d thr evs Vs Qs om bs ns nc ns' nc' dts ts,
+  length ns = length nc -> length ns' = length nc' ->
+  Permutation (combine ns nc) (combine ns' nc') ->
+  exists f : nat -> nat, FinFun.bFun (length ns) f /\ FinFun.bInjective (length ns) f /\
+    forall j k o, (j < length ns)%nat -> (k < length bs)%nat -> (o < length om)%nat ->
+      a3get RO (control_matrix_from_scratch RO d thr evs Vs Qs om bs ns' nc' dts ts) j k o =
+      a3get RO (control_matrix_from_scratch RO d thr evs Vs Qs om bs ns nc dts ts) (f j) k o.
+Proof. exact cm_perm_rows. Qed.
+Print Assumptions C13_cm_perm_rows.
+
+Theorem C13_cm_reindex_rows : forall d thr evs Vs Qs om bs ns nc dts ts (p : list nat) j k o,
+  (j < length p)%nat -> (nth j p 0 < length ns)%nat -> (k < length bs)%nat -> (o < length om)%nat ->
+  a3get RO (control_matrix_from_scratch RO d thr evs Vs Qs om bs (map (nthm ns) p) (map (nthv nc) p) dts ts) j k o =
+  a3get RO (control_matrix_from_scratch RO d thr evs Vs Qs om bs ns nc dts ts) (nth j p 0%nat) k o.
+Proof. exact cm_reindex_rows. Qed.
+
+(* Control operators: H_l = sum_i a_il A_i ('ijk,il->ljk') does not depend on the listing order. *)
+Theorem C13_hamiltonian_perm : forall d (opers opers' : list (Mat (T:=R))) (coeffs coeffs' : list (list R)) l,
+  Permutation (combine opers coeffs) (combine opers' coeffs') ->
+  hamiltonian RO d opers coeffs l = hamiltonian RO d opers' coeffs' l.
+Proof. exact hamiltonian_perm. Qed.
+Print Assumptions C13_hamiltonian_perm.
+
+(* ============================== the hypotheses are satisfiable ============================== *)
+Example C13_unitary_satisfiable : funitary 2 (toF swap2).
+Proof. exact swap2_unitary. Qed.
+Example C13_all_masked_satisfiable :
+  all_masked 2 (/ 10000000) (/ 2) [0; 1] (1 + 1) /\ all_masked 2 (/ 10000000) (/ 2) [0; 1] 1.
+Proof. exact (conj all_masked_example2 all_masked_example). Qed.
